@@ -576,16 +576,18 @@ Definition flat_pairs (l : list (Z * Z)) : list Z := flat_map (fun p => [fst p; 
 Definition scaled_of_bits (b : Z) : Z :=
   let ex := Z.land (Z.shiftr b 52) 2047 in
   let mant := Z.land b 4503599627370495 in
-  if ex =? 0 then mant else (mant + 4503599627370496) * 2 ^ (ex - 1).
+  if ex =? 0 then mant else Z.shiftl (mant + 4503599627370496) (ex - 1).
 
 (* ghost log: accepted (item, weight bits) of every update that the specification counts, most recent first
    (the oracle reads it as a multiset) *)
-Record full := mkfull { f_sk : fvo; f_log : list (Z * Z) }.
+Record full := mkfull0 { f_sk : fvo; f_log : list (Z * Z); f_tot : Z }.     (* f_tot: running scaled total of f_log *)
 (* a union and the concatenated logs of the sketches it was given *)
-Record ufull := mkufull { u_un : fvu; u_log : list (Z * Z) }.
+Record ufull := mkufull0 { u_un : fvu; u_log : list (Z * Z); u_tot : Z }.
 
 Definition log_n (l : list (Z * Z)) : Z := Z.of_nat (length l).
-Definition log_total (l : list (Z * Z)) : Z := fold_left (fun a p => a + scaled_of_bits (snd p)) l 0.
+Definition log_total (l : list (Z * Z)) : Z := fold_left (fun a p => a + scaled_of_bits (snd p)) l 0.   (* = f_tot; not run *)
+Definition mkfull (v : fvo) (l : list (Z * Z)) (t : Z) : full := mkfull0 v l t.
+Definition mkufull (v : fvu) (l : list (Z * Z)) (t : Z) : ufull := mkufull0 v l t.
 
 Definition max_k : Z := 2147483646.
 
@@ -619,7 +621,7 @@ Definition step (s : st) (o e : line) : st * outline :=
   | 98 :: _ => (s, (ok, []))
   | 1 :: r :: k :: _ =>                                   (* new sketch r with k (resize factor not modelled) *)
       if (k <=? 0) || (max_k <? k) then (s, (refused, []))
-      else (setr s r (mkfull (F_empty (zn k) false) []), (ok, []))
+      else (setr s r (mkfull (F_empty (zn k) false) [] 0), (ok, []))
   | 2 :: r :: x :: wb :: _ =>                             (* update r item weight-bits *)
       match getr s r with
       | None => (s, (refused, []))
@@ -628,16 +630,16 @@ Definition step (s : st) (o e : line) : st * outline :=
           | URefused _ _ => (s, (refused, []))
           | UIgnored _ _ => if chs_ok (chs0 e) then (s, (ok, [])) else (s, (bad_env, []))
           | UOk _ _ s' c' =>
-              if chs_ok c' then (setr s r (mkfull s' ((x, wb) :: f_log f)), (ok, []))
+              if chs_ok c' then (setr s r (mkfull s' ((x, wb) :: f_log f) (f_tot f + scaled_of_bits wb)), (ok, []))
               else (s, (bad_env, []))
-          | UThrew _ _ s' => (setr s r (mkfull s' ((x, wb) :: f_log f)), (refused, []))
+          | UThrew _ _ s' => (setr s r (mkfull s' ((x, wb) :: f_log f) (f_tot f + scaled_of_bits wb)), (refused, []))
           end
       end
   | 3 :: r :: _ =>                                        (* dump: n k num_samples h r total_wt_r samples ; S: n total log *)
       match getr s r with
       | None => (s, (refused, []))
       | Some f =>
-          (s, (dump_sketch (f_sk f), log_n (f_log f) :: log_total (f_log f) :: flat_pairs (f_log f)))
+          (s, (dump_sketch (f_sk f), log_n (f_log f) :: f_tot f :: flat_pairs (f_log f)))
       end
   | 4 :: r :: pid :: arg :: _ =>                          (* estimate_subset_sum: estimate, total_sketch_weight *)
       match getr s r with
@@ -646,8 +648,7 @@ Definition step (s : st) (o e : line) : st * outline :=
           match F_estimate (f_sk f) (pred_of pid arg) with
           | None => (s, (refused, []))
           | Some (est, tot, _) =>
-              let truth := fold_left (fun a p => if pred_of pid arg (fst p) then a + scaled_of_bits (snd p) else a) (f_log f) 0 in
-              (s, ([float_to_bits est; float_to_bits tot], [truth; log_total (f_log f)]))
+              (s, ([float_to_bits est; float_to_bits tot], [0; f_tot f]))
           end
       end
   | 5 :: r :: r2 :: _ =>                                  (* serialize r, deserialize into r2 *)
@@ -656,13 +657,13 @@ Definition step (s : st) (o e : line) : st * outline :=
       | Some f =>
           match F_serde (f_sk f) with
           | None => (s, (refused, []))
-          | Some v => (setr s r2 (mkfull v (if (hh v =? 0)%nat && (rr v =? 0)%nat then [] else f_log f)), (ok, []))
+          | Some v => (setr s r2 (if (hh v =? 0)%nat && (rr v =? 0)%nat then mkfull v [] 0 else mkfull v (f_log f) (f_tot f)), (ok, []))
           end
       end
   | 6 :: r :: _ =>                                        (* reset *)
       match getr s r with
       | None => (s, (refused, []))
-      | Some f => (setr s r (mkfull (reset Z fl PrimFloat.zero (f_sk f)) []), (ok, []))
+      | Some f => (setr s r (mkfull (reset Z fl PrimFloat.zero (f_sk f)) [] 0), (ok, []))
       end
   | 7 :: r :: r2 :: _ =>                                  (* copy r into r2 *)
       match getr s r with
@@ -671,15 +672,15 @@ Definition step (s : st) (o e : line) : st * outline :=
       end
   | 10 :: u :: k :: _ =>                                  (* new union u with max_k *)
       if (k <=? 0) || (max_k <? k) then (s, (refused, []))
-      else (setu s u (mkufull (F_uempty (zn k)) []), (ok, []))
+      else (setu s u (mkufull (F_uempty (zn k)) [] 0), (ok, []))
   | 11 :: u :: r :: _ =>                                  (* union u . update(sketch r) *)
       match getu s u, getr s r with
       | Some uf, Some f =>
           let '(u', c', okb) := F_uupdate (u_un uf) (f_sk f) (chs0 e) in
           if okb then
-            if chs_ok c' then (setu s u (mkufull u' (f_log f ++ u_log uf)), (ok, []))
+            if chs_ok c' then (setu s u (mkufull u' (f_log f ++ u_log uf) (u_tot uf + f_tot f)), (ok, []))
             else (s, (bad_env, []))
-          else (setu s u (mkufull u' (f_log f ++ u_log uf)), (refused, []))
+          else (setu s u (mkufull u' (f_log f ++ u_log uf) (u_tot uf + f_tot f)), (refused, []))
       | _, _ => (s, (refused, []))
       end
   | 12 :: u :: r2 :: _ =>                                 (* get_result of u into register r2 *)
@@ -689,14 +690,14 @@ Definition step (s : st) (o e : line) : st * outline :=
           match F_uresult (u_un uf) (chs0 e) with
           | None => (s, (refused, []))
           | Some (v, c') =>
-              if chs_ok c' then (setr s r2 (mkfull v (u_log uf)), (ok, []))
+              if chs_ok c' then (setr s r2 (mkfull v (u_log uf) (u_tot uf)), (ok, []))
               else (s, (bad_env, []))
           end
       end
   | 13 :: u :: _ =>                                       (* union reset *)
       match getu s u with
       | None => (s, (refused, []))
-      | Some uf => (setu s u (mkufull (F_ureset (u_un uf)) []), (ok, []))
+      | Some uf => (setu s u (mkufull (F_ureset (u_un uf)) [] 0), (ok, []))
       end
   | 15 :: u :: u2 :: _ =>                                 (* union u: serialize, deserialize into union u2 *)
       match getu s u with
@@ -704,7 +705,7 @@ Definition step (s : st) (o e : line) : st * outline :=
       | Some uf =>
           match F_userde (u_un uf) with
           | None => (s, (refused, []))
-          | Some v => (setu s u2 (mkufull v (if (un v =? 0)%Z then [] else u_log uf)), (ok, []))
+          | Some v => (setu s u2 (if (un v =? 0)%Z then mkufull v [] 0 else mkufull v (u_log uf) (u_tot uf)), (ok, []))
           end
       end
   | 14 :: u :: _ =>                                       (* union dump: n numer denom max_k marks gadget-dump ; S: n total *)
@@ -713,7 +714,7 @@ Definition step (s : st) (o e : line) : st * outline :=
       | Some uf =>
           let v := u_un uf in
           (s, (un v :: float_to_bits (uotn v) :: nz (uotd v) :: nz (umaxk v) :: nz (vmarks (ugad v)) :: dump_sketch (ugad v),
-               [log_n (u_log uf); log_total (u_log uf)]))
+               [log_n (u_log uf); u_tot uf]))
       end
   | _ => (s, ([-2], []))
   end.
